@@ -73,7 +73,7 @@ def crash_as_dev(PROP, c, part):
 
 
 
-def trace_part(ev, prop, part, family, binaries, p, vine, nwalks, steps, nmax, matchers=None, fnd=None):
+def trace_part(ev, prop, part, family, binaries, p, vine, nwalks, steps, nmax, matchers=None, fnd=None, extra_env=None):
     """Free-running random histories beyond the bounded model, executed on every configuration of `binaries` with the
     matrices logged, validated by Trace_PersistenceMatrix.tla (barcode, legality of every step, matrix identities are
     all evaluated by TLC).  Returns the list of unknown rejections."""
@@ -98,6 +98,8 @@ def trace_part(ev, prop, part, family, binaries, p, vine, nwalks, steps, nmax, m
     from concurrent.futures import ThreadPoolExecutor
     def one(bi):
         env = {"VF_P": str(p), "VF_IDS": "seq", "VF_LOGMAT": "1", "VF_TRACE_OUT": os.path.join(work, "trace_%d.ndjson" % bi)}
+        if extra_env:
+            env.update(extra_env)
         vf.run(cmds[bi], env=env, ok_codes=(0, 3), timeout=2400)
     with ThreadPoolExecutor(min(len(cmds), 8)) as ex:
         list(ex.map(one, range(len(cmds))))
